@@ -425,7 +425,7 @@ theorem ownedNode_iff_written {z : St} (h : Inv z) (k id : Nat) :
     | setProp _ _ _ => cases he
     | addLabel _ _ => cases he
     | remLabel _ _ => cases he
-    | delNode _ => cases he
+    | delNode _ _ => cases he
     | delEdge _ => cases he
   · rintro ⟨t, ls, ht, hw⟩
     have hs := h.sess k
